@@ -214,7 +214,7 @@ def s_specs(pp, stride):
     C11._G.update(pp=pp, vidx=0)
     C12._G.update(pp=pp, vidx=0)
     _G.update(pp=pp)
-    items = [('C05', i, sp) for i, sp in enumerate(C05.specs(0)) if i % stride == 0 and sp['solvent'] != 'W3'
+    items = [('C05', i, sp) for i, sp in enumerate(C05.specs(0)) if i % stride == 0 and not C05.holds_solute(sp)
              and sp['level'] != 'just-feasible']
     items += [('C11', i, sp) for i, sp in enumerate(list(C11.dilute_specs()) + list(C11.fill_specs()))
               if i % stride == 0 and not sp['mix'].startswith('tiny') and sp['cap'] in ('inf', 'ample')]
